@@ -356,6 +356,8 @@ class SVG:
         self.elements = []
 
     def _clone(self) -> "SVG":
+        # flush any lazily cached shape edits first, the copy is made from the tree
+        self._update_etree()
         return SVG(svg_root=copy.deepcopy(self.svg_root))
 
     def _elements(self) -> List[Tuple[etree.Element, Tuple[SVGShape, ...]]]:
@@ -1000,7 +1002,7 @@ class SVG:
 
     def remove_processing_instructions(self, inplace=False):
         if not inplace:
-            svg = SVG(copy.deepcopy(self.svg_root))
+            svg = self._clone()
             svg.remove_processing_instructions(inplace=True)
             return svg
 
